@@ -3,6 +3,7 @@ import builtins
 import contextlib
 import io
 import itertools
+import re
 import traceback
 
 from hypothesis import strategies as st
@@ -62,6 +63,11 @@ def render(block, indent=0, lines=None):
             if s[2] is not None:
                 lines.append(pad + 'else:')
                 render(s[2], indent + 1, lines) if s[2] else lines.append(pad + '    pass')
+        elif k in ('le', 'l1', 'lapp', 'lext'):
+            lines.append(pad + {'le': '%s = []', 'l1': '%s = [1, 2]', 'lapp': '%s.append(1)', 'lext': '%s.extend([3])'}[k] % s[1])
+        elif k == 'forv':
+            lines.append(pad + 'for _ in %s:' % s[1])
+            render(s[2], indent + 1, lines) if s[2] else lines.append(pad + '    pass')
         elif k in ('for', 'while'):
             lines.append(pad + ('for _ in input():' if k == 'for' else 'while input():'))
             render(s[1], indent + 1, lines) if s[1] else lines.append(pad + '    pass')
@@ -249,6 +255,8 @@ def count_inputs(block):
             n += len(s[1])
             for b in s[1] + ([s[2]] if s[2] is not None else []):
                 n += count_inputs(b)
+        elif s[0] == 'forv':
+            n += 2 * count_inputs(s[2])
         elif s[0] in ('for', 'while'):
             n += 2 + 2 * count_inputs(s[1])
             if len(s) > 2 and s[2] is not None:
@@ -307,7 +315,7 @@ def judge_loops(case):
             if any('for' in c for c in ctx):
                 # experiment: with every for-loop turned into a while-loop (same line layout) does TIFA see the read?
                 try:
-                    _, alt = tifa_issues(code.replace('for _ in input():', 'while input():'))
+                    _, alt = tifa_issues(re.sub(r'for _ in (input\(\)|[pq]):', 'while input():', code))
                     alt_rep = {(l, n) for lab in INIT_LABELS for n, l in alt.get(lab, ())}
                     if (line, name) in alt_rep:
                         causes.append('for-body-assumed-to-run')
@@ -331,6 +339,10 @@ def assignment_contexts(block, name, ctx=('top',)):
         elif s[0] == 'if':
             for b in s[1] + ([s[2]] if s[2] is not None else []):
                 out |= assignment_contexts(b, name, ctx)
+        elif s[0] in ('le', 'l1') and s[1] == name:
+            out.add('/'.join(c for c in ctx if c != 'top') or 'top')
+        elif s[0] == 'forv':
+            out |= assignment_contexts(s[2], name, tuple(c for c in ctx if c in ('def',)) + ('for',))
         elif s[0] in ('for', 'while'):
             out |= assignment_contexts(s[1], name, tuple(c for c in ctx if c in ('def',)) + (s[0],))
             if len(s) > 2 and s[2] is not None:
@@ -346,6 +358,8 @@ def flat_kinds(block):
         if s[0] == 'if':
             for b in s[1] + ([s[2]] if s[2] is not None else []):
                 yield from flat_kinds(b)
+        elif s[0] == 'forv':
+            yield from flat_kinds(s[2])
         elif s[0] in ('for', 'while'):
             yield from flat_kinds(s[1])
             if len(s) > 2 and s[2] is not None:
@@ -441,7 +455,9 @@ def _block(depth, loops=False):
     ifs = st.tuples(st.just('if'), st.lists(inner, min_size=1, max_size=3), st.one_of(st.none(), inner)).map(list)
     options = [_simple(), _simple(), ifs]
     if loops:
-        options += [st.tuples(st.just('for'), inner).map(list), st.tuples(st.just('while'), inner).map(list),
+        _lv = st.sampled_from(['p', 'q'])
+        options += [st.tuples(st.sampled_from(['le', 'l1', 'l1', 'lapp', 'lext']), _lv).map(list), st.tuples(st.just('forv'), _lv, inner).map(list),
+                    st.tuples(st.just('for'), inner).map(list), st.tuples(st.just('while'), inner).map(list),
                     st.tuples(st.sampled_from(['for', 'while']), inner, inner).map(list)]
     return st.lists(st.one_of(options), min_size=1, max_size=4)
 
@@ -466,10 +482,30 @@ def loop_programs(tier):
     return st.tuples(funcs, _block(2, loops=True), st.lists(st.tuples(st.integers(0, 6), st.integers(0, 1)), max_size=3)).map(assemble)
 
 
-STRATEGIES = {'large': large_programs, 'loops': loop_programs}
+def list_loop_programs(tier):
+    """A list that is built up in several ways (literal, append, extend, emptied again on a branch), then a loop over it whose body
+    reads and assigns the scalar variables: whether the body runs depends on the list's real content, not on how it was first written."""
+    lv = st.sampled_from(['p', 'q'])
+    listop = st.tuples(st.sampled_from(['le', 'le', 'l1', 'lapp', 'lext', 'lext']), lv).map(list)
+    branch = st.tuples(st.just('if'), st.lists(st.lists(listop, min_size=1, max_size=2), min_size=1, max_size=2), st.one_of(st.none(), st.lists(listop, max_size=1))).map(list)
+    prefix = st.lists(st.one_of(listop, listop, branch, _simple()), min_size=1, max_size=4)
+    loop = st.tuples(st.just('forv'), lv, _block(0)).map(list)
+    tail = st.lists(st.one_of(_simple(), loop, listop), max_size=3)
+    outer = st.sampled_from(['none', 'while'])
+
+    def assemble(t):
+        pre, lp, post, wrap = t
+        prog = list(pre) + [lp] + list(post)
+        if wrap == 'while':
+            prog = [['le', 'p'], ['while', prog]]
+        return {'part': 2, 'program': prog}
+    return st.tuples(prefix, loop, tail, outer).map(assemble)
+
+
+STRATEGIES = {'large': large_programs, 'loops': loop_programs, 'listloops': list_loop_programs}
 
 
 def plan(tier):
     k = 1 if tier == 'quick' else 30
     return [Task('enum', 'small', shards=10), Task('hyp', 'large', shards=3, examples=scale(400 * k)),
-            Task('hyp', 'loops', shards=3, examples=scale(300 * k))]
+            Task('hyp', 'loops', shards=2, examples=scale(300 * k)), Task('hyp', 'listloops', shards=2, examples=scale(400 * k))]
